@@ -64,6 +64,7 @@ type finding struct {
 
 // Recorder accumulates coverage for one run of one check.
 type Recorder struct {
+	ticks    atomic.Int64
 	Property string
 	Level    string
 	Tier     Tier
@@ -107,10 +108,10 @@ func (r *Recorder) External(fn func()) {
 // the process ends, because a goroutine stuck inside the library cannot be interrupted.
 func (r *Recorder) Watch(stall time.Duration) {
 	go func() {
-		last, since := r.evals.Load(), time.Now()
+		last, since := r.evals.Load()+r.ticks.Load(), time.Now()
 		for {
 			time.Sleep(5 * time.Second)
-			if n := r.evals.Load(); n != last || r.external.Load() > 0 {
+			if n := r.evals.Load() + r.ticks.Load(); n != last || r.external.Load() > 0 {
 				last, since = n, time.Now()
 				continue
 			}
@@ -191,7 +192,11 @@ func (r *Recorder) Expired() bool {
 	return false
 }
 
-func (r *Recorder) Eval(n int64)       { r.evals.Add(n) }
+func (r *Recorder) Eval(n int64) { r.evals.Add(n) }
+
+// Tick records progress that is no evaluation (a transition of a state-space search executed on
+// the implementation): the watchdog counts it as a finished execution.
+func (r *Recorder) Tick()              { r.ticks.Add(1) }
 func (r *Recorder) Evaluations() int64 { return r.evals.Load() }
 
 // Count adds to a named extra counter (reported under coverage).
